@@ -219,6 +219,8 @@ class Files(object):
             if not os.path.islink(link):
                 os.symlink(inner, link)
             path = os.path.join(link, os.pardir, os.path.basename(path))
+        if kind == "T" and k == 2:
+            return ""  # the second file of this kind has no name at all (what an unset shell variable leaves behind)
         return path + os.sep if kind == "T" else path
 
     def paths(self, kinds, fmt):
